@@ -314,6 +314,11 @@ func TestVerifC05Shapes(t *testing.T) {
 		g.MapOf(g.PtrTo(g.L(g.Int8))), g.MapOf(g.PtrTo(g.L(g.String))), g.MapOf(g.SliceOf(g.L(g.Int8))), g.MapOf(g.SliceOf(g.L(g.String))),
 		g.MapOf(g.SliceOf(st())), g.MapOf(st()), g.MapOf(g.PtrTo(st())), g.MapOf(g.MapOf(g.L(g.Int8))), g.MapOf(g.MapOf(g.L(g.String))),
 		g.IntMapOf(g.L(g.String)), g.IntMapOf(g.L(g.Int8)),
+		g.PtrTo(g.MapOf(g.L(g.Int8))), g.PtrTo(g.MapOf(g.L(g.String))), g.PtrTo(g.MapOf(g.L(g.Bool))), g.PtrTo(g.MapOf(g.SliceOf(g.L(g.Int8)))), g.PtrTo(g.MapOf(st())), g.PtrTo(g.MapOf(g.PtrTo(st()))),
+		g.PtrTo(g.MapOf(g.MapOf(g.L(g.String)))), g.PtrTo(g.MapOf(g.AnyT())), g.PtrTo(g.MapOf(g.PtrTo(g.L(g.Int8)))), g.PtrTo(g.IntMapOf(g.L(g.String))),
+		g.PtrTo(g.SliceOf(g.L(g.Int8))), g.PtrTo(g.SliceOf(g.L(g.String))), g.PtrTo(g.SliceOf(g.L(g.Bool))), g.PtrTo(g.SliceOf(g.PtrTo(g.L(g.Int8)))), g.PtrTo(g.SliceOf(g.SliceOf(g.L(g.Int8)))),
+		g.PtrTo(g.SliceOf(st())), g.PtrTo(g.SliceOf(g.PtrTo(st()))), g.PtrTo(g.SliceOf(g.MapOf(g.L(g.Int8)))), g.PtrTo(g.SliceOf(g.AnyT())),
+		g.SliceOf(g.PtrTo(g.SliceOf(g.L(g.Int8)))), g.SliceOf(g.PtrTo(g.MapOf(g.L(g.Int8)))), g.MapOf(g.PtrTo(g.SliceOf(g.L(g.Int8)))), g.MapOf(g.PtrTo(g.MapOf(g.L(g.Int8)))),
 		g.AnyT(), g.SliceOf(g.AnyT()), g.MapOf(g.AnyT()), g.MapOf(g.SliceOf(g.AnyT())), g.SliceOf(g.MapOf(g.AnyT())),
 		st(), g.PtrTo(st()),
 		g.StructOf(g.F("A", "a", g.SliceOf(g.L(g.Int8)), g.Opts{Optional: true}), g.F("B", "b", g.MapOf(g.L(g.String)), g.Opts{Optional: true})),
@@ -335,7 +340,7 @@ func TestVerifC05Shapes(t *testing.T) {
 	}
 	for _, ft := range types {
 		for _, optional := range []bool{false, true} {
-			if optional && !(ft.K == g.Slice || ft.K == g.Map) {
+			if optional && !(ft.K == g.Slice || ft.K == g.Map || (ft.K == g.Ptr && (ft.Elem.K == g.Slice || ft.Elem.K == g.Map))) {
 				continue
 			}
 			for _, v := range values {
